@@ -8,6 +8,7 @@ import (
 	"fmt"
 	"io"
 	"net"
+	"strings"
 	"time"
 
 	"github.com/Jigsaw-Code/outline-sdk/transport"
@@ -259,6 +260,7 @@ type tcpServer struct {
 	Timeout time.Duration
 	ln      service.StreamListener
 	Served  bool // StreamServe returned
+	handlersAtReturn int // connection handlers still alive when it returned
 	handler service.StreamHandler
 }
 
@@ -314,6 +316,11 @@ func startTCPServer(rc *RunCtx, w *simnet.World, o tcpServerOpts) *tcpServer {
 	}
 	simrt.GoNamed("StreamServe", func() {
 		service.StreamServe(ln.AcceptStream, handle)
+		for _, t := range simrt.Snapshot() {
+			if t.Kind == "repo" && strings.Contains(t.Created, "service.StreamServe(") {
+				s.handlersAtReturn++
+			}
+		}
 		s.Served = true
 	})
 	return s
